@@ -369,6 +369,7 @@ def pairing(F, R, readers, writers):
     src_w = {}  # (adt, field) -> (body path, call bb)
     src_r = {}
     by_call = defaultdict(lambda: [None, None])
+    store_at = {}
     n_calls = 0
     for b in F.bodies:
         if b.krate != 'kira':
@@ -388,6 +389,7 @@ def pairing(F, R, readers, writers):
                     continue
                 call_bb, idx = half
                 by_call[(b.path, call_bb)][0 if idx == 0 else 1] = (rv['adt'], fname)
+                store_at.setdefault((b.path, call_bb), {}).setdefault(0 if idx == 0 else 1, []).append(bi)
                 (src_w if idx == 0 else src_r)[(rv['adt'], fname)] = (b.path, call_bb)
     # a half may also be stored in a collection (the per-route writers of a track live in a HashMap)
     for b in F.bodies:
@@ -404,6 +406,7 @@ def pairing(F, R, readers, writers):
                     half = half_of(b, a, dest_of)
                     if half is not None and half[1] == 0:
                         by_call[(b.path, half[0])][0] = ('<HashMap value>', b.path)
+                        store_at.setdefault((b.path, half[0]), {}).setdefault(0, []).append(bb)
     npairs = 0
     wset = set((a, f) for a, f, _ in writers)
     rset = set((a, f) for a, f, _ in readers)
@@ -421,6 +424,17 @@ def pairing(F, R, readers, writers):
                 why = 'writer %s.%s is paired with reader %s.%s' % (w[0], w[1], r[0], r[1])
         R.check(ok, 'B.C07.pair', '%s.%s' % w, why or 'pair halves are not CommandWriter/CommandReader fields',
                 detail={'writer': '%s.%s' % w, 'reader': '%s.%s' % r, 'built_in': bpath})
+        # a pair made in a loop (one per route): every turn that makes a pair stores BOTH halves - a writer kept without its
+        # reader accepts commands that nobody will ever read
+        pb = F.body(bpath)
+        st = store_at.get((bpath, cbb), {})
+        if pb is not None and pb.in_loop(cbb) and st.get(0) and st.get(1):
+            from ..rules import must_pass
+            L = min(pb.in_loop(cbb), key=lambda l: len(l['blocks']))
+            nxt = [pb.blocks[cbb]['term'].get('t')] if pb.blocks[cbb]['term'].get('t') is not None else []
+            both = all(must_pass(pb, nxt, [L['header']], [x for x in st[i]]) for i in (0, 1))
+            R.check(both, 'B.C07.pair', '%s.%s|both-stored' % w, 'in %s a turn of the loop can make a writer / reader pair and keep only one half of it' % bpath,
+                    detail={'built_in': bpath}, where=pb.where(cbb), nontrivial=False)
     for k in sorted(rset):
         R.check(k in src_r, 'B.C07.pair', 'reader-source:%s.%s' % k,
                 'reader field %s.%s is not initialised from a command_writer_and_reader() call' % k, nontrivial=False)
